@@ -120,7 +120,7 @@ Proof. exact unset_indexed_total. Qed.
 Print Assumptions C28_unset_elem_total.
 
 (* ${v:o:l} for every string and every offset/length, negative included *)
-Theorem C28_slice_str_total : forall rs off len, slice_str rs off len <> Panic.
+Theorem C28_slice_str_total : forall rs set off len, slice_str rs set off len <> Panic.
 Proof. exact slice_str_total. Qed.
 Print Assumptions C28_slice_str_total.
 
